@@ -88,19 +88,23 @@ def pass (input : Bytes) (flags : Nat) : M (Bool × Bytes × Bool) := do
 
 def noPass : Bool × Bytes × Bool := (false, [], false)
 
+/-- a reading that is only tried when its gate is open -/
+def gated (gate : Bool) (p : M (Bool × Bytes × Bool)) : M (Bool × Bytes × Bool) :=
+  if gate then p else pure noPass
+
 /-- `IsSQLi`: the ordered cascade of the five parsing contexts -/
 def isSQLi (input : Bytes) : M (Bool × Bytes) := do
   if input.length == 0 then return (false, [])
   let a ← pass input (flagQuoteNone ||| flagAnsi)
   if a.1 then return (true, a.2.1)
-  let b ← (if a.2.2 then pass input (flagQuoteNone ||| flagMysql) else pure noPass)
+  let b ← gated a.2.2 (pass input (flagQuoteNone ||| flagMysql))
   if b.1 then return (true, b.2.1)
   let hasSingle := (indexByte input 39).isSome
-  let c ← (if hasSingle then pass input (flagQuoteSingle ||| flagAnsi) else pure noPass)
+  let c ← gated hasSingle (pass input (flagQuoteSingle ||| flagAnsi))
   if c.1 then return (true, c.2.1)
-  let d ← (if hasSingle && c.2.2 then pass input (flagQuoteSingle ||| flagMysql) else pure noPass)
+  let d ← gated (hasSingle && c.2.2) (pass input (flagQuoteSingle ||| flagMysql))
   if d.1 then return (true, d.2.1)
-  let e ← (if (indexByte input 34).isSome then pass input (flagQuoteDouble ||| flagMysql) else pure noPass)
+  let e ← gated (indexByte input 34).isSome (pass input (flagQuoteDouble ||| flagMysql))
   if e.1 then return (true, e.2.1)
   return (false, [])
 
